@@ -11,12 +11,15 @@ import (
 // callback (through the guarded seam rosmar.VerifConnectHook). While a fault is armed, the n-th
 // table access (read of a column, insert, update, delete) that SQLite asks the authorizer about is
 // denied once: the statement being prepared fails with "not authorized", as a statement hit by a
-// transient error (out of memory, interrupted, an unreadable page) would. Which access is denied is
-// decided by the program of the run, so the fault replays exactly.
+// transient error (out of memory, interrupted, an unreadable page) would. Only statements issued by
+// the goroutine that armed the fault count (SQLite calls the authorizer on the goroutine that
+// prepares the statement). Which access is denied is decided by the program of the run, so the
+// fault replays exactly.
 
 var stmtFault struct {
 	countdown atomic.Int64
 	fired     atomic.Int64
+	gid       atomic.Uint64 // the goroutine that armed the fault: only ITS statements count
 }
 
 func init() {
@@ -27,7 +30,12 @@ func init() {
 			default:
 				return sqlite3.SQLITE_OK
 			}
-			if stmtFault.countdown.Load() > 0 && stmtFault.countdown.Add(-1) == 0 {
+			if stmtFault.countdown.Load() <= 0 || stmtFault.gid.Load() != curGID() {
+				// not armed, or a statement of somebody else (another client, a feed writing its checkpoint,
+				// the expiry sweep - where rosmar treats any error as fatal and panics)
+				return sqlite3.SQLITE_OK
+			}
+			if stmtFault.countdown.Add(-1) == 0 {
 				stmtFault.fired.Add(1)
 				return sqlite3.SQLITE_DENY
 			}
@@ -38,7 +46,10 @@ func init() {
 }
 
 // ArmStmtFault makes the n-th (1-based) table access from now on fail once.
-func ArmStmtFault(n int) { stmtFault.countdown.Store(int64(n)) }
+func ArmStmtFault(n int) {
+	stmtFault.gid.Store(curGID())
+	stmtFault.countdown.Store(int64(n))
+}
 
 // DisarmStmtFault drops a fault that was not reached and reports how many have fired so far.
 func DisarmStmtFault() int64 {
